@@ -1798,13 +1798,15 @@ class LeCreditBasedChannel(utils.EventEmitter):
             self.in_sdu_length = 0
             return
 
-        # Send the SDU to the sink
-        logger.debug(f'SDU complete: 2+{len(self.in_sdu) - 2} bytes')
-        self.sink(self.in_sdu[2:])  # pylint: disable=not-callable
-
-        # Prepare for a new SDU
+        # Prepare for a new SDU (before calling the sink: if it raises, the channel
+        # must not keep appending the following SDUs to this one)
+        sdu = self.in_sdu[2:]
         self.in_sdu = None
         self.in_sdu_length = 0
+
+        # Send the SDU to the sink
+        logger.debug(f'SDU complete: 2+{len(sdu)} bytes')
+        self.sink(sdu)  # pylint: disable=not-callable
 
     def on_connection_response(
         self, response: L2CAP_LE_Credit_Based_Connection_Response
